@@ -677,6 +677,15 @@ def check(ck, P, rule, only=None):
             ck.decide(not extra, rule, "%s:update:%s:only" % (cname, cf), "no other in-place operator on that field",
                       "%s now updates `%s` in place with %s, which neither zlib-ng's %s nor the port did: the direction or kind of an "
                       "in-place update has changed" % (", ".join(f.path.replace(Z, "") for f in fns), cf, "/".join(extra), cname), where(fns[0]))
+        root_toks = set()
+        for f in fns:
+            for s_, t_ in rust_atoms(f):
+                root_toks |= set(getattr(t_, "own", t_))
+        for fld in table.get("absent", {}).get(key, []):
+            n += 1
+            ck.decide(fld not in root_toks, rule, "%s:no-test:%s" % (cname, fld), "does not test the caller's buffers",
+                      "zlib-ng's %s never looks at strm->%s; %s now decides on it: a call that the reference accepts (a stream without "
+                      "buffers attached yet) is answered differently" % (cname, fld, ", ".join(f.path.replace(Z, "") for f in fns)), where(fns[0]))
         rmm = rust_minmax(allf)
         for kind, ctoks in table.get("minmax", {}).get(key, []):
             n += 1
